@@ -125,6 +125,41 @@ module Top (
             reset: true,
         },
         Design {
+            name: "const_var",
+            code: r#"
+module Top (
+    clk: input  clock   ,
+    rst: input  reset   ,
+    d  : input  logic<8>,
+    en : input  logic   ,
+    cnt: output logic<8>,
+    acc: output logic<8>,
+    sum: output logic<8>,
+) {
+    var k  : logic<8>;
+    var nxt: logic<8>;
+    assign k = 8'h5a;
+    always_comb {
+        nxt = if en ? cnt + 1 : cnt;
+    }
+    always_ff {
+        if_reset {
+            cnt = 0;
+            acc = 0;
+        } else {
+            cnt = nxt;
+            acc = d ^ k;
+        }
+    }
+    assign sum = (cnt + acc) ^ k;
+}
+"#,
+            inputs: &[("d", 8), ("en", 1)],
+            outputs: &["cnt", "acc", "sum"],
+            clocked: true,
+            reset: true,
+        },
+        Design {
             name: "multipass",
             code: r#"
 module Top (
